@@ -1,7 +1,7 @@
 import DAVerif.Proofs.WithForm
 /-
 The simulation argument of C04: evaluating the WITH form produced with ANY faithful key function gives the result
-of the nested query (`toWithFormG_sound`).
+of the nested query (`toWithFormOld_sound`).
 -/
 namespace DAVerif.Sql
 open DAVerif
@@ -128,31 +128,31 @@ theorem KeyOK.acyclic (h : KeyOK Θ ec env key q) :
   exact main _ x hx rfl
 
 /-- the invariant relating the CTE context, the cache and the query -/
-def Inv (ctes : List (String × Table)) : Option Cache → Prop
+def InvOld (ctes : List (String × Table)) : Option Cache → Prop
   | none => True
   | some c => KeyOK Θ ec env key q ∧
       (∀ e ∈ c, ∃ t, lookupLast ctes e.2 = some t ∧ ∀ x ∈ q.desc, bkey key x = e.1 → den Θ ec env x = .ok t) ∧
       (∀ x ∈ q.desc, bkey key x ∈ c.map (·.1) → ∀ m ∈ x.1.desc, bkey key m ∈ c.map (·.1))
 
 /-- outcome of `to_with_form` on `near`, started with the CTE context `ctes` and the cache `cache` -/
-def TWPost (ctes : List (String × Table)) (cache : Option Cache) (near : Near) : Prop :=
-  (∃ extra, runSteps Θ ec env ctes (toWithFormG key cache near).2.1 = .ok (ctes ++ extra) ∧
+def TWPostOld (ctes : List (String × Table)) (cache : Option Cache) (near : Near) : Prop :=
+  (∃ extra, runSteps Θ ec env ctes (toWithFormOld key cache near).2.1 = .ok (ctes ++ extra) ∧
       (∀ e ∈ extra, e.1 ∈ near.names.tail) ∧
-      Inv Θ ec env key q (ctes ++ extra) (toWithFormG key cache near).2.2 ∧
-      ∀ c f, semNear Θ ec env (ctes ++ extra) (toWithFormG key cache near).1 c f = semNear Θ ec env [] near c f)
-  ∨ (runSteps Θ ec env ctes (toWithFormG key cache near).2.1 = .error .other ∧
+      InvOld Θ ec env key q (ctes ++ extra) (toWithFormOld key cache near).2.2 ∧
+      ∀ c f, semNear Θ ec env (ctes ++ extra) (toWithFormOld key cache near).1 c f = semNear Θ ec env [] near c f)
+  ∨ (runSteps Θ ec env ctes (toWithFormOld key cache near).2.1 = .error .other ∧
       ∀ c f, semNear Θ ec env [] near c f = .error .other)
 
 /-- outcome of `to_with_form_stub` on the container `(near, cols, force)` -/
-def STPost (ctes : List (String × Table)) (cache : Option Cache) (near : Near) (cols : Option (List String))
+def STPostOld (ctes : List (String × Table)) (cache : Option Cache) (near : Near) (cols : Option (List String))
     (force : Bool) : Prop :=
-  (∃ extra, runSteps Θ ec env ctes (stubStep key near cols force (toWithFormG key cache near)).2.1 = .ok (ctes ++ extra) ∧
+  (∃ extra, runSteps Θ ec env ctes (stubStepOld key near cols force (toWithFormOld key cache near)).2.1 = .ok (ctes ++ extra) ∧
       (∀ e ∈ extra, e.1 ∈ near.names) ∧
-      Inv Θ ec env key q (ctes ++ extra) (stubStep key near cols force (toWithFormG key cache near)).2.2 ∧
+      InvOld Θ ec env key q (ctes ++ extra) (stubStepOld key near cols force (toWithFormOld key cache near)).2.2 ∧
       ∀ more : List (String × Table), (∀ e ∈ more, e.1 ∉ (ctes ++ extra).map (·.1)) →
-        semNear Θ ec env (ctes ++ extra ++ more) (stubStep key near cols force (toWithFormG key cache near)).1 cols force
+        semNear Θ ec env (ctes ++ extra ++ more) (stubStepOld key near cols force (toWithFormOld key cache near)).1 cols force
           = semNear Θ ec env [] near cols force)
-  ∨ (runSteps Θ ec env ctes (stubStep key near cols force (toWithFormG key cache near)).2.1 = .error .other ∧
+  ∨ (runSteps Θ ec env ctes (stubStepOld key near cols force (toWithFormOld key cache near)).2.1 = .error .other ∧
       semNear Θ ec env [] near cols force = .error .other)
 
 theorem lookupLast_some_fst_mem {β : Type} (m : List (String × β)) (k : String) (v : β)
@@ -161,8 +161,8 @@ theorem lookupLast_some_fst_mem {β : Type} (m : List (String × β)) (k : Strin
   simp only [List.mem_map]
   exact ⟨_, this, rfl⟩
 
-theorem seq_any_false (cache : Option Cache) (near : Near) (hnd : near.names.Nodup) (ht : ¬ near.isTable = true) :
-    ((toWithFormG key cache near).2.1.any fun st => st.name == (toWithFormG key cache near).1.name) = false := by
+theorem seq_any_false_old (cache : Option Cache) (near : Near) (hnd : near.names.Nodup) (ht : ¬ near.isTable = true) :
+    ((toWithFormOld key cache near).2.1.any fun st => st.name == (toWithFormOld key cache near).1.name) = false := by
   have hn := Near.names_of_not_isTable ht
   have hnotin : near.name ∉ near.names.tail := by
     rw [hn] at hnd; exact (List.nodup_cons.mp hnd).1
@@ -170,22 +170,22 @@ theorem seq_any_false (cache : Option Cache) (near : Near) (hnd : near.names.Nod
   intro h
   rw [List.any_eq_true] at h
   obtain ⟨x, hx, hxe⟩ := h
-  rw [toWithFormG_name] at hxe
+  rw [toWithFormOld_name] at hxe
   have hxe' : x.name = near.name := by simpa using hxe
   apply hnotin
   rw [← hxe']
-  exact (toWithFormG_names key near hnd cache).2 _ (by simp only [stepNames, List.mem_map]; exact ⟨x, hx, rfl⟩)
+  exact (toWithFormOld_names key near hnd cache).2 _ (by simp only [stepNames, List.mem_map]; exact ⟨x, hx, rfl⟩)
 
 /-- `to_with_form_stub` from `to_with_form` on the same node -/
-theorem stub_sem (ctes : List (String × Table)) (cache : Option Cache) (near : Near) (cols : Option (List String))
+theorem stub_sem_old (ctes : List (String × Table)) (cache : Option Cache) (near : Near) (cols : Option (List String))
     (force : Bool)
     (hb : ∀ x ∈ bdesc near cols force, x ∈ q.desc) (hnc : near.noCte = true) (hnd : near.names.Nodup)
-    (hdis : ∀ n ∈ near.names, n ∉ ctes.map (·.1)) (hinv : Inv Θ ec env key q ctes cache)
-    (htw : TWPost Θ ec env key q ctes cache near) :
-    STPost Θ ec env key q ctes cache near cols force := by
-  unfold STPost
+    (hdis : ∀ n ∈ near.names, n ∉ ctes.map (·.1)) (hinv : InvOld Θ ec env key q ctes cache)
+    (htw : TWPostOld Θ ec env key q ctes cache near) :
+    STPostOld Θ ec env key q ctes cache near cols force := by
+  unfold STPostOld
   by_cases ht : near.isTable = true
-  · rw [stubStep_isTable key cols force _ ht, toWithFormG_isTable key _ ht]
+  · rw [stubStepOld_isTable key cols force _ ht, toWithFormOld_isTable key _ ht]
     left
     refine ⟨[], by simp [runSteps_nil], by simp, by simpa using hinv, ?_⟩
     intro more _
@@ -199,15 +199,15 @@ theorem stub_sem (ctes : List (String × Table)) (cache : Option Cache) (near : 
     have hnotin : near.name ∉ near.names.tail := by
       rw [hn] at hnd; exact (List.nodup_cons.mp hnd).1
     -- the miss case, shared by `cache = none` and a failed lookup
-    have miss : ((toWithFormG key cache near).2.2.bind fun c => lookupLast c (key near cols)) = none →
-        (∀ c1, (toWithFormG key cache near).2.2 = some c1 → ∀ k ∈ near.desc.map (bkey key), k ∈ c1.map (·.1)) →
-        STPost Θ ec env key q ctes cache near cols force := by
+    have miss : ((toWithFormOld key cache near).2.2.bind fun c => lookupLast c (key near cols)) = none →
+        (∀ c1, (toWithFormOld key cache near).2.2 = some c1 → ∀ k ∈ near.desc.map (bkey key), k ∈ c1.map (·.1)) →
+        STPostOld Θ ec env key q ctes cache near cols force := by
       intro hl hgrow
-      unfold STPost
-      rw [stubStep_miss key cols force _ ht hl]
-      have hany := seq_any_false key cache near hnd ht
-      rw [toWithFormG_name] at hany
-      simp only [toWithFormG_name, hany, Bool.false_eq_true, if_false]
+      unfold STPostOld
+      rw [stubStepOld_miss key cols force _ ht hl]
+      have hany := seq_any_false_old key cache near hnd ht
+      rw [toWithFormOld_name] at hany
+      simp only [toWithFormOld_name, hany, Bool.false_eq_true, if_false]
       cases htw with
       | inr herr =>
         right
@@ -235,13 +235,13 @@ theorem stub_sem (ctes : List (String × Table)) (cache : Option Cache) (near : 
             | inl h => exact List.mem_cons_of_mem _ (hnames e h)
             | inr h => subst h; exact List.mem_cons_self
           · -- the invariant for the extended cache
-            cases hc1 : (toWithFormG key cache near).2.2 with
-            | none => simp [Inv]
+            cases hc1 : (toWithFormOld key cache near).2.2 with
+            | none => simp [InvOld]
             | some c1 =>
               rw [hc1] at hinv1 hl
               simp only [Option.bind_some] at hl
               obtain ⟨hok, hI1, hI2⟩ := hinv1
-              simp only [Option.map_some, Inv]
+              simp only [Option.map_some, InvOld]
               have hfresh : near.name ∉ (ctes ++ extra1).map (·.1) := by
                 simp only [List.map_append, List.mem_append, not_or]
                 refine ⟨hdis _ (by rw [hn]; exact List.mem_cons_self), ?_⟩
@@ -290,11 +290,11 @@ theorem stub_sem (ctes : List (String × Table)) (cache : Option Cache) (near : 
     cases cache with
     | none =>
       apply miss
-      · rw [toWithFormG_cache_none]; rfl
-      · intro c1 hc1; rw [toWithFormG_cache_none] at hc1; cases hc1
+      · rw [toWithFormOld_cache_none]; rfl
+      · intro c1 hc1; rw [toWithFormOld_cache_none] at hc1; cases hc1
     | some c =>
-      obtain ⟨m1, e1, a1, b1, n1⟩ := toWithFormG_cache key near c
-      cases hl : ((toWithFormG key (some c) near).2.2.bind fun c => lookupLast c (key near cols)) with
+      obtain ⟨m1, e1, a1, b1, n1⟩ := toWithFormOld_cache key near c
+      cases hl : ((toWithFormOld key (some c) near).2.2.bind fun c => lookupLast c (key near cols)) with
       | none =>
         apply miss hl
         intro c1 hc1
@@ -326,7 +326,7 @@ theorem stub_sem (ctes : List (String × Table)) (cache : Option Cache) (near : 
         subst hm1
         simp only [List.append_nil] at e1 hmem hl
         obtain ⟨t, hlk, hden⟩ := hI1 _ hmem
-        rw [stubStep_hit key cols force _ ht (by rw [e1]; simpa using hl)]
+        rw [stubStepOld_hit key cols force _ ht (by rw [e1]; simpa using hl)]
         left
         refine ⟨[], by simp [runSteps_nil], by simp, ?_, ?_⟩
         · rw [e1, List.append_nil]; exact ⟨hok, hI1, hI2⟩
@@ -344,39 +344,39 @@ theorem stub_sem (ctes : List (String × Table)) (cache : Option Cache) (near : 
           exact (hden _ hx rfl).symm
 
 /-- two containers processed one after the other (the two sides of a binary step) -/
-theorem pair_sem (ctes : List (String × Table)) (cache : Option Cache) (l r : Near) (lc rc : Option (List String))
+theorem pair_sem_old (ctes : List (String × Table)) (cache : Option Cache) (l r : Near) (lc rc : Option (List String))
     (fl fr : Bool)
     (hbl : ∀ x ∈ bdesc l lc fl, x ∈ q.desc) (hbr : ∀ x ∈ bdesc r rc fr, x ∈ q.desc)
     (hncl : l.noCte = true) (hncr : r.noCte = true) (hnd : (l.names ++ r.names).Nodup)
-    (hdis : ∀ n ∈ l.names ++ r.names, n ∉ ctes.map (·.1)) (hinv : Inv Θ ec env key q ctes cache)
-    (ihl : ∀ ctes cache, (∀ n ∈ l.names, n ∉ ctes.map (·.1)) → Inv Θ ec env key q ctes cache →
-      TWPost Θ ec env key q ctes cache l)
-    (ihr : ∀ ctes cache, (∀ n ∈ r.names, n ∉ ctes.map (·.1)) → Inv Θ ec env key q ctes cache →
-      TWPost Θ ec env key q ctes cache r) :
-    (∃ extra, runSteps Θ ec env ctes (appendUnseen (stubStep key l lc fl (toWithFormG key cache l)).2.1
-          (stubStep key r rc fr (toWithFormG key (stubStep key l lc fl (toWithFormG key cache l)).2.2 r)).2.1)
+    (hdis : ∀ n ∈ l.names ++ r.names, n ∉ ctes.map (·.1)) (hinv : InvOld Θ ec env key q ctes cache)
+    (ihl : ∀ ctes cache, (∀ n ∈ l.names, n ∉ ctes.map (·.1)) → InvOld Θ ec env key q ctes cache →
+      TWPostOld Θ ec env key q ctes cache l)
+    (ihr : ∀ ctes cache, (∀ n ∈ r.names, n ∉ ctes.map (·.1)) → InvOld Θ ec env key q ctes cache →
+      TWPostOld Θ ec env key q ctes cache r) :
+    (∃ extra, runSteps Θ ec env ctes (appendUnseen (stubStepOld key l lc fl (toWithFormOld key cache l)).2.1
+          (stubStepOld key r rc fr (toWithFormOld key (stubStepOld key l lc fl (toWithFormOld key cache l)).2.2 r)).2.1)
           = .ok (ctes ++ extra) ∧
         (∀ e ∈ extra, e.1 ∈ l.names ++ r.names) ∧
-        Inv Θ ec env key q (ctes ++ extra)
-          (stubStep key r rc fr (toWithFormG key (stubStep key l lc fl (toWithFormG key cache l)).2.2 r)).2.2 ∧
-        semNear Θ ec env (ctes ++ extra) (stubStep key l lc fl (toWithFormG key cache l)).1 lc fl
+        InvOld Θ ec env key q (ctes ++ extra)
+          (stubStepOld key r rc fr (toWithFormOld key (stubStepOld key l lc fl (toWithFormOld key cache l)).2.2 r)).2.2 ∧
+        semNear Θ ec env (ctes ++ extra) (stubStepOld key l lc fl (toWithFormOld key cache l)).1 lc fl
           = semNear Θ ec env [] l lc fl ∧
         semNear Θ ec env (ctes ++ extra)
-          (stubStep key r rc fr (toWithFormG key (stubStep key l lc fl (toWithFormG key cache l)).2.2 r)).1 rc fr
+          (stubStepOld key r rc fr (toWithFormOld key (stubStepOld key l lc fl (toWithFormOld key cache l)).2.2 r)).1 rc fr
           = semNear Θ ec env [] r rc fr)
-    ∨ (runSteps Θ ec env ctes (appendUnseen (stubStep key l lc fl (toWithFormG key cache l)).2.1
-          (stubStep key r rc fr (toWithFormG key (stubStep key l lc fl (toWithFormG key cache l)).2.2 r)).2.1)
+    ∨ (runSteps Θ ec env ctes (appendUnseen (stubStepOld key l lc fl (toWithFormOld key cache l)).2.1
+          (stubStepOld key r rc fr (toWithFormOld key (stubStepOld key l lc fl (toWithFormOld key cache l)).2.2 r)).2.1)
           = .error .other ∧
         (semNear Θ ec env [] l lc fl = .error .other ∨ semNear Θ ec env [] r rc fr = .error .other)) := by
   have hndl := (List.nodup_append.mp hnd).1
   have hndr := (List.nodup_append.mp hnd).2.1
   have hlr := (List.nodup_append.mp hnd).2.2
   have hdisl : ∀ n ∈ l.names, n ∉ ctes.map (·.1) := fun n hn => hdis n (List.mem_append_left _ hn)
-  have hn1 := stubStep_names key l lc fl cache hndl (toWithFormG_names key l hndl cache)
-  have hn2 := stubStep_names key r rc fr (stubStep key l lc fl (toWithFormG key cache l)).2.2 hndr
-    (toWithFormG_names key r hndr _)
+  have hn1 := stubStepOld_names key l lc fl cache hndl (toWithFormOld_names key l hndl cache)
+  have hn2 := stubStepOld_names key r rc fr (stubStepOld key l lc fl (toWithFormOld key cache l)).2.2 hndr
+    (toWithFormOld_names key r hndr _)
   rw [(pair_names _ _ _ _ hnd hn1 hn2).1]
-  have STl := stub_sem Θ ec env key q ctes cache l lc fl hbl hncl hndl hdisl hinv (ihl ctes cache hdisl hinv)
+  have STl := stub_sem_old Θ ec env key q ctes cache l lc fl hbl hncl hndl hdisl hinv (ihl ctes cache hdisl hinv)
   cases STl with
   | inr herr =>
     right
@@ -392,7 +392,7 @@ theorem pair_sem (ctes : List (String × Table)) (cache : Option Cache) (l r : N
       simp only [List.mem_map] at hmem
       obtain ⟨e, he, hee⟩ := hmem
       exact hlr _ (hnames1 e he) n hn hee
-    have STr := stub_sem Θ ec env key q (ctes ++ extra1) _ r rc fr hbr hncr hndr hdisr hinv1
+    have STr := stub_sem_old Θ ec env key q (ctes ++ extra1) _ r rc fr hbr hncr hndr hdisr hinv1
       (ihr (ctes ++ extra1) _ hdisr hinv1)
     cases STr with
     | inr herr =>
@@ -420,16 +420,16 @@ theorem pair_sem (ctes : List (String × Table)) (cache : Option Cache) (l r : N
         exact this
 
 /-- **simulation**: `to_with_form` on a sub-tree of `q` -/
-theorem tw_sem (near : Near) : (∀ x ∈ near.desc, x ∈ q.desc) → near.noCte = true → near.names.Nodup →
-    ∀ ctes cache, (∀ n ∈ near.names, n ∉ ctes.map (·.1)) → Inv Θ ec env key q ctes cache →
-      TWPost Θ ec env key q ctes cache near := by
+theorem tw_sem_old (near : Near) : (∀ x ∈ near.desc, x ∈ q.desc) → near.noCte = true → near.names.Nodup →
+    ∀ ctes cache, (∀ n ∈ near.names, n ∉ ctes.map (·.1)) → InvOld Θ ec env key q ctes cache →
+      TWPostOld Θ ec env key q ctes cache near := by
   induction near with
   | table n ts =>
     intro _ _ _ ctes cache _ hinv
     left
-    refine ⟨[], by simp [toWithFormG, runSteps_nil], by simp, by simpa [toWithFormG] using hinv, ?_⟩
+    refine ⟨[], by simp [toWithFormOld, runSteps_nil], by simp, by simpa [toWithFormOld] using hinv, ?_⟩
     intro c f
-    simp only [toWithFormG]
+    simp only [toWithFormOld]
     exact semNear_table_ctes Θ ec env _ _ n ts c f
   | cte n => intro _ h; simp [Near.noCte] at h
   | unary name terms agg sub sc sf mg deps k ih =>
@@ -439,10 +439,10 @@ theorem tw_sem (near : Near) : (∀ x ∈ near.desc, x ∈ q.desc) → near.noCt
     rw [desc_unary] at hsub
     have hdis' : ∀ n ∈ sub.names, n ∉ ctes.map (·.1) := fun n hn => hdis n (by simp [Near.names, hn])
     have hsub' : ∀ x ∈ sub.desc, x ∈ q.desc := fun x hx => hsub x (by simp [bdesc, hx])
-    have ST := stub_sem Θ ec env key q ctes cache sub sc false hsub hnc hnd.2 hdis' hinv
+    have ST := stub_sem_old Θ ec env key q ctes cache sub sc false hsub hnc hnd.2 hdis' hinv
       (ih hsub' hnc hnd.2 ctes cache hdis' hinv)
-    obtain ⟨mg', deps', he⟩ := toWithFormG_unary key cache name terms agg sub sc sf mg deps k
-    unfold TWPost
+    obtain ⟨mg', deps', he⟩ := toWithFormOld_unary key cache name terms agg sub sc sf mg deps k
+    unfold TWPostOld
     rw [he]
     cases ST with
     | inr herr =>
@@ -465,11 +465,11 @@ theorem tw_sem (near : Near) : (∀ x ∈ near.desc, x ∈ q.desc) → near.noCt
     have hbl : ∀ x ∈ bdesc l (some lc) false, x ∈ q.desc := fun x hx => hsub x (List.mem_append_left _ hx)
     have hbr : ∀ x ∈ bdesc r (some rc) false, x ∈ q.desc := fun x hx => hsub x (List.mem_append_right _ hx)
     have hdis' : ∀ n ∈ l.names ++ r.names, n ∉ ctes.map (·.1) := fun n hn => hdis n (by simp only [Near.names]; exact List.mem_cons_of_mem _ hn)
-    have P := pair_sem Θ ec env key q ctes cache l r (some lc) (some rc) false false hbl hbr hnc.1 hnc.2 hnd.2 hdis' hinv
+    have P := pair_sem_old Θ ec env key q ctes cache l r (some lc) (some rc) false false hbl hbr hnc.1 hnc.2 hnd.2 hdis' hinv
       (fun ctes cache => ihl (fun x hx => hbl x (by simp [bdesc, hx])) hnc.1 (List.nodup_append.mp hnd.2).1 ctes cache)
       (fun ctes cache => ihr (fun x hx => hbr x (by simp [bdesc, hx])) hnc.2 (List.nodup_append.mp hnd.2).2.1 ctes cache)
-    unfold TWPost
-    rw [toWithFormG_join]
+    unfold TWPostOld
+    rw [toWithFormOld_join]
     cases P with
     | inr herr =>
       right
@@ -488,11 +488,11 @@ theorem tw_sem (near : Near) : (∀ x ∈ near.desc, x ∈ q.desc) → near.noCt
     have hbl : ∀ x ∈ bdesc l (some cs) true, x ∈ q.desc := fun x hx => hsub x (List.mem_append_left _ hx)
     have hbr : ∀ x ∈ bdesc r (some cs) true, x ∈ q.desc := fun x hx => hsub x (List.mem_append_right _ hx)
     have hdis' : ∀ n ∈ l.names ++ r.names, n ∉ ctes.map (·.1) := fun n hn => hdis n (by simp only [Near.names]; exact List.mem_cons_of_mem _ hn)
-    have P := pair_sem Θ ec env key q ctes cache l r (some cs) (some cs) true true hbl hbr hnc.1 hnc.2 hnd.2 hdis' hinv
+    have P := pair_sem_old Θ ec env key q ctes cache l r (some cs) (some cs) true true hbl hbr hnc.1 hnc.2 hnd.2 hdis' hinv
       (fun ctes cache => ihl (fun x hx => hbl x (by simp [bdesc, hx])) hnc.1 (List.nodup_append.mp hnd.2).1 ctes cache)
       (fun ctes cache => ihr (fun x hx => hbr x (by simp [bdesc, hx])) hnc.2 (List.nodup_append.mp hnd.2).2.1 ctes cache)
-    unfold TWPost
-    rw [toWithFormG_union]
+    unfold TWPostOld
+    rw [toWithFormOld_union]
     cases P with
     | inr herr =>
       right
@@ -505,14 +505,14 @@ theorem tw_sem (near : Near) : (∀ x ∈ near.desc, x ∈ q.desc) → near.noCt
       exact semNear_union_congr Θ ec env _ _ _ _ _ _ _ _ _ _ _ _ _ _ _ hs1 hs2
 
 /-- **soundness of the WITH form for a faithful key function** (cache on), and with the cache off -/
-theorem toWithFormG_sound (cache : Option Cache) (hc : cache = none ∨ (cache = some [] ∧ KeyOK Θ ec env key q))
+theorem toWithFormOld_sound (cache : Option Cache) (hc : cache = none ∨ (cache = some [] ∧ KeyOK Θ ec env key q))
     (hnc : q.noCte = true) (hnd : q.names.Nodup) :
-    semWith Θ ec env (toWithFormG key cache q).2.1 (toWithFormG key cache q).1 = semSql Θ ec env q := by
-  have hinv : Inv Θ ec env key q [] cache := by
+    semWith Θ ec env (toWithFormOld key cache q).2.1 (toWithFormOld key cache q).1 = semSql Θ ec env q := by
+  have hinv : InvOld Θ ec env key q [] cache := by
     cases hc with
     | inl h => subst h; trivial
     | inr h => obtain ⟨h1, h2⟩ := h; subst h1; exact ⟨h2, by simp, by simp⟩
-  have T := tw_sem Θ ec env key q q (fun _ h => h) hnc hnd [] cache (by simp) hinv
+  have T := tw_sem_old Θ ec env key q q (fun _ h => h) hnc hnd [] cache (by simp) hinv
   rw [semWith_eq]
   unfold semSql
   cases T with
